@@ -57,18 +57,25 @@ TToAscii ==
   /\ LET inp == Ev["in"]
          r == DomainToAscii(inp)
          \* classification only (known finding D10): what the per-label reading of the Bidi rule would give
-         rr == DomainToAsciiX(inp, FALSE)
+         rr == DomainToAsciiX(inp, FALSE, FALSE)
          relaxed == ~rr.unspec /\ rr.ok = Ev.ok /\ (rr.ok => rr.s = Ev.a)
+         \* classification only (known finding D19): the "somewhere before / somewhere after" reading of the ZWNJ rule,
+         \* alone or together with the D10 reading
+         Same(q) == ~q.unspec /\ q.ok = Ev.ok /\ (q.ok => q.s = Ev.a)
+         loosej == ~relaxed /\ (Same(DomainToAsciiX(inp, TRUE, TRUE)) \/ Same(DomainToAsciiX(inp, FALSE, TRUE)))
          d1 == IF r.unspec THEN 0
                ELSE IF r.ok = Ev.ok /\ (IF r.ok THEN r.s = Ev.a /\ Ev.a2 = Ev.a ELSE Ev.a = <<>>) THEN 0
                ELSE Diag([l |-> l, who |-> "a", kind |-> "toascii", props |-> << "C06" >>,
-                          expok |-> r.ok, exp |-> r.s, gotok |-> Ev.ok, got |-> Ev.a, relaxed |-> relaxed])
+                          expok |-> r.ok, exp |-> r.s, gotok |-> Ev.ok, got |-> Ev.a, relaxed |-> relaxed, loosej |-> loosej])
          \* ToUnicode of the (specified) result decodes exactly the accepted labels
          fu == IF r.unspec \/ ~r.ok \/ ~Ev.ok THEN [unspec |-> TRUE, s |-> <<>>] ELSE FragToUnicode(r.s)
          d2 == IF fu.unspec \/ fu.s = Ev.u THEN 0
                ELSE Diag([l |-> l, who |-> "a", kind |-> "tounicode", props |-> << "C06" >>,
                           exp |-> fu.s, got |-> Ev.u,
-                          relaxed |-> LET fr == FragToUnicodeX(r.s, FALSE) IN ~fr.unspec /\ fr.s = Ev.u])
+                          relaxed |-> LET fr == FragToUnicodeX(r.s, FALSE, FALSE) IN ~fr.unspec /\ fr.s = Ev.u,
+                          loosej |-> LET f1 == FragToUnicodeX(r.s, TRUE, TRUE)
+                                         f2 == FragToUnicodeX(r.s, FALSE, TRUE)
+                                     IN (~f1.unspec /\ f1.s = Ev.u) \/ (~f2.unspec /\ f2.s = Ev.u)])
          \* the C API returns what the C++ API returns
          d3 == IF Ev.ca = Ev.a /\ Ev.cu = Ev.u THEN 0
                ELSE Diag([l |-> l, who |-> "c", kind |-> "capi", props |-> << "C17" >>,
@@ -80,7 +87,8 @@ TToAscii ==
                ELSE IF hp.ok = Ev.host.v /\ (hp.ok => hp.host.s = Ev.host.s) THEN 0
                ELSE Diag([l |-> l, who |-> "a", kind |-> "urlhost", props |-> << "C06" >>,
                           expok |-> hp.ok, exp |-> hp.host.s, gotok |-> Ev.host.v, got |-> Ev.host.s,
-                          relaxed |-> relaxed /\ Ev.host.v = Ev.ok /\ (Ev.ok => Ev.host.s = Ev.a)])
+                          relaxed |-> relaxed /\ Ev.host.v = Ev.ok /\ (Ev.ok => Ev.host.s = Ev.a),
+                          loosej |-> loosej /\ Ev.host.v = Ev.ok /\ (Ev.ok => Ev.host.s = Ev.a)])
          \* RFC 3492 without any Unicode table: a single label of letters that the generator guarantees to be
          \* unmapped and NFC-stable (lower-case Latin-1 / Greek / Cyrillic / kana / CJK + [a-z0-9-]) must, when it is
          \* accepted, be exactly "xn--" + the specification's Punycode encoding of its own code points
